@@ -1,5 +1,6 @@
 # Contracts for odxtools/exceptions.py (property C17) and the reads-frame obligation for the strict_mode flag
 import ast
+import warnings
 
 import odxtools.exceptions as X
 from odxtools.exceptions import DecodeError, EncodeError, OdxError, odxassert, odxraise, odxrequire
@@ -116,3 +117,91 @@ def strict_mode_reads_frame(tier):
                     bad.append(f"{rel}:{n.lineno}: strict_mode read at module level (import time)")
         out.append({"name": f"reads-frame[{rel}]", "ok": not bad, "detail": bad or "no by-value use of strict_mode"})
     return out
+
+
+# ---------------------------------------------------------------------------------------------------------------
+# switching at run time: a problem that is an error in strict mode is downgraded in lenient mode, and re-enabling
+# strict mode restores the error (no part of the library may remember the lenient outcome)
+from odxtools.decodestate import DecodeState  # noqa: E402
+from odxtools.encodestate import EncodeState  # noqa: E402
+from odxtools.encoding import Encoding, get_string_encoding  # noqa: E402
+from odxtools.odxlink import DocType, OdxDocFragment, OdxLinkDatabase, OdxLinkRef  # noqa: E402
+from odxtools.odxtypes import DataType  # noqa: E402
+
+_FR = [OdxDocFragment("doc", DocType.CONTAINER)]
+
+
+def _op_illegal_string_encoding():
+    return get_string_encoding(DataType.A_UTF8STRING, Encoding.BCD_P, True)
+
+
+def _op_illegal_int_encoding_encode():
+    es = EncodeState()
+    es.emplace_atomic_value(internal_value=1, bit_length=8, base_data_type=DataType.A_UINT32,
+                            base_type_encoding=Encoding.ONEC, is_highlow_byte_order=True, used_mask=None)
+    return bytes(es.coded_message)
+
+
+def _op_illegal_int_encoding_decode():
+    ds = DecodeState(coded_message=b"\x01")
+    return ds.extract_atomic_value(bit_length=8, base_data_type=DataType.A_UINT32, base_type_encoding=Encoding.SM,
+                                   is_highlow_byte_order=True)
+
+
+def _op_illegal_string_decode():
+    ds = DecodeState(coded_message=b"ab")
+    return ds.extract_atomic_value(bit_length=16, base_data_type=DataType.A_ASCIISTRING,
+                                   base_type_encoding=Encoding.BCD_UP, is_highlow_byte_order=True)
+
+
+def _op_dangling_reference():
+    return OdxLinkDatabase().resolve(OdxLinkRef("nope", _FR))
+
+
+def _op_require_none():
+    return odxrequire(None)
+
+
+def _op_value_out_of_range():
+    es = EncodeState()
+    es.emplace_atomic_value(internal_value=300, bit_length=8, base_data_type=DataType.A_UINT32,
+                            base_type_encoding=None, is_highlow_byte_order=True, used_mask=None)
+    return bytes(es.coded_message)
+
+
+PROBLEMS = {
+    "illegal-string-encoding": _op_illegal_string_encoding,
+    "illegal-int-encoding-encode": _op_illegal_int_encoding_encode,
+    "illegal-int-encoding-decode": _op_illegal_int_encoding_decode,
+    "illegal-string-encoding-decode": _op_illegal_string_decode,
+    "dangling-reference": _op_dangling_reference,
+    "required-object-missing": _op_require_none,
+    "value-out-of-range": _op_value_out_of_range,
+}
+
+
+@harness(props=["C17"], strength="E",
+         family=lambda t, s: [{"problem": p, "order": o} for p in PROBLEMS
+                              for o in ("lenient-strict-lenient", "strict-lenient-strict")],
+         functions=[odxraise, odxassert, get_string_encoding], covers=["done"], crosscheck=False)
+def restoring_strict_mode_restores_the_error(problem, order):
+    """for a problematic operation: error in strict mode, no error in lenient mode, whatever mode was active before -
+    the outcome of a call depends only on the flag at the time of that call"""
+    op = PROBLEMS[problem]
+    outcomes = []
+    for mode in order.split("-"):
+        H.set_global(X, "strict_mode", mode == "strict")
+        try:
+            with warnings.catch_warnings():
+                warnings.simplefilter("ignore")
+                op()
+            outcomes.append((mode, "returned"))
+        except OdxError:
+            outcomes.append((mode, "error"))
+        except KeyError:
+            outcomes.append((mode, "error"))
+    H.cover("done")
+    H.check("C17:problem-is-an-error-in-strict-mode-whatever-came-before",
+            all([res == "error" for (mode, res) in outcomes if mode == "strict"]))
+    H.check("C17:problem-is-downgraded-in-lenient-mode-whatever-came-before",
+            all([res == "returned" for (mode, res) in outcomes if mode == "lenient"]))
